@@ -80,9 +80,11 @@ let () =
   register "ord_eq" (fun a -> on_ord (arg a 0) (fun x -> on_ord (arg a 1) (fun y -> pure (tbool (Order.order_eqb x y)))));
   register "ord_index" (fun a -> on_ord (arg a 0) (fun x -> on_ord (arg a 1) (fun y -> out ti (Order.order_index x y))));
   register "ord_union" (fun a -> on_ord (arg a 0) (fun x -> on_ord (arg a 1) (fun y -> out trmat (Order.order_union x y))));
-  (* ord_disc discf O f : discf = the implementation's discriminant(f) (taken from its answer) *)
-  register "ord_disc" (fun a -> on_ord (arg a 1) (fun b ->
-    out ti (Order.order_discriminant Base.Checked (int_ (arg a 0)) b (zp (arg a 2)))));
+  (* ord_disc O f : O.discriminant(theta), theta with minimal polynomial f.  The model computes
+     discriminant(f) itself (Resultant.discriminant, wired in by Round2.order_disc); nothing is
+     taken from the implementation's answer *)
+  register "ord_disc" (fun a -> on_ord (arg a 0) (fun b ->
+    out ti (Round2.order_disc Base.Checked b (zp (arg a 1)))));
   register "ord_mult_table" (fun a -> on_ord (arg a 0) (fun b ->
     with_basis ttable b (Order.get_mult_table b (zp (arg a 1)))));
   register "ord_to_z_basis" (fun a -> on_ord (arg a 0) (fun b ->
